@@ -1106,7 +1106,7 @@ func slIdx(t, i string) string {
 		if p[1] == "0" {
 			return i
 		}
-		return "(+ " + p[1] + " " + i + ")"
+		return "(sidx " + p[1] + " " + i + ")"
 	}
-	return "(+ (s.off " + t + ") " + i + ")"
+	return "(sidx (s.off " + t + ") " + i + ")"
 }
